@@ -15,7 +15,7 @@ TECHNIQUE = (
     "pair of gaps of a short text x all span tuples x {skip, wrap}; lxml judges well-formedness and text content"
 )
 RULE = (
-    "sources = all element trees with <= 2 (quick) / 3 (thorough) elements over tags {i,b,p} (and, for <= 2 elements, {I,em,s}) (nested, sequential, empty) "
+    "sources = all element trees with <= 2 (quick) / 3 (thorough) elements over tags {i,b,p} (and, for <= 2 elements, {I,em,s}) (nested, sequential, empty); long: a 19-letter text with element boundaries and span endpoints on a 10-point grid (style-tag tolerance of 10 characters) "
     "at all gap positions of 'wxyz' (thorough also 'wxyzu'), de-duplicated by serialisation; spans = all ordered tuples of "
     "<= 2 spans (empty included); before/after = <a>/</a>. non-trivial = source contains >= 1 tag strictly inside or at the "
     "edge of a requested non-empty span."
@@ -73,8 +73,34 @@ def replay(case):
     return [{"msg": f"{lab}: {det} :: {case}", "label": lab} for lab, det in res]
 
 
+LONG_PLAIN = "cdfghjklnoqrtuvwxyz"  # 19 distinct letters: an element can close more than 10 characters after a span ends
+LONG_TAGS = ["i", "em", "p"]
+
+
+def long_cases(max_el):
+    """(source, span tuple): every tree of <= max_el elements over the long text whose element boundaries lie on a coarse
+    grid x every single span and every pair of spans with endpoints on the grid."""
+    N = len(LONG_PLAIN)
+    grid = [0, 1, 2, 3, 9, 15, 16, 17, N - 1, N]
+    seen = set()
+    spans = [(a, b) for a in grid for b in grid if a <= b]
+    sets = [(sp,) for sp in spans] + [(x, y) for x in spans for y in spans]
+    for tree in annot.element_trees(N, LONG_TAGS, max_el):
+        if any(a not in grid or b not in grid for _, a, b in tree):
+            continue
+        source = annot.render_tree(LONG_PLAIN, tree)
+        if source in seen:
+            continue
+        seen.add(source)
+        el = annot.wellformed(source)
+        if el is None or "".join(el.itertext()) != LONG_PLAIN:
+            continue
+        for ss in sets:
+            yield tree, source, ss
+
+
 def shards(tier, seed):
-    out = []
+    out = [{"long": True, "max_el": 1 if tier == "quick" else 2, "r": r, "n": 16} for r in range(16)]
     for plain, mx in CFG[tier]:
         n = 16 if mx <= 2 else 64
         for r in range(n):
@@ -86,6 +112,23 @@ def shards(tier, seed):
 
 def run_shard(sh):
     st = Stats()
+    if sh.get("long"):
+        p = st.part(f"long-{sh['max_el']}el")
+        for tree, source, ss in itertools.islice(long_cases(sh["max_el"]), sh["r"], None, sh["n"]):
+            key = h64([source, ss])
+            st.states.add(key)
+            if tree and any(s < e for s, e in ss):
+                st.nontrivial.add(key)
+            for mode in ("skip", "wrap"):
+                st.evaluations += 1
+                st.traces += 1
+                st.transitions += 1
+                p["evaluations"] += 1
+                res = check(LONG_PLAIN, source, ss, mode)
+                st.outcomes.add(h64([r[0] for r in res]) if res else 0)
+                for lab, det in res:
+                    st.violation({"plain": LONG_PLAIN, "source": source, "spans": [list(x) for x in ss], "mode": mode}, f"{lab}: {det} :: source={source!r} spans={ss}", label="long-" + lab)
+        return st
     plain = sh["plain"]
     p = st.part(f"{plain}-{sh['max_el']}el")
     assert len(set(plain)) == len(plain) and not (set(plain) & set("ibpaIems"))
